@@ -465,7 +465,7 @@ def build_tables(case, out):
                     if a == tk:
                         if isinstance(iv, float):
                             gt[(f, g)] = iv > float(tcorr)
-                            iv2 = ((ipair.get(k + "_rev") or {}).get(f) or {}).get(g)
+                            iv2 = ((ipair.get(k) or {}).get(g) or {}).get(f)  # the other column order
                             if isinstance(iv2, float) and (iv2 > float(tcorr)) != gt[(f, g)]:
                                 fragile.append(f"{f},{g}:{k}: association equals thresh_corr and the float "
                                                "comparison depends on the column order")
@@ -887,19 +887,29 @@ def run_selector_on(case, sel, observe=True):
             out["table"][dtype] = tab
         except Exception as e:  # noqa: BLE001
             out["table"][dtype] = f"{type(e).__name__}"
+        # pairwise associations AS THE IMPLEMENTATION'S FILTER computes them: the filter function is run
+        # on the two-feature ranking [g, f] with a threshold that drops nothing; its `<k>_filter` cell
+        # of f is the association of the candidate f with the better-ranked g (column order g, f)
+        import pandas as pd
+        from AutoCarver.selectors.filters import (cramerv_filter, pearson_filter, spearman_filter,
+                                                  tschuprowt_filter)
+        FF = {"spearman": spearman_filter, "pearson": pearson_filter, "cramerv": cramerv_filter,
+              "tschuprowt": tschuprowt_filter}
+        _ = (cramerv_measure, tschuprowt_measure)
         prs = {}
         for k in fs:
             try:
-                if k in ("spearman", "pearson"):
-                    # pandas computes a pair with the column that comes first as x: both orders
-                    cm = X[names].corr(k).abs()
-                    rm = X[names[::-1]].corr(k).abs()
-                    prs[k] = {f: {g: fnum(cm.loc[f, g]) for g in names if g != f} for f in names}
-                    prs[k + "_rev"] = {f: {g: fnum(rm.loc[f, g]) for g in names if g != f} for f in names}
-                else:
-                    fn = cramerv_measure if k == "cramerv" else tschuprowt_measure
-                    prs[k] = {f: {g: fnum(fn(X[f], X[g])[1][f"{k}_measure"]) for g in names if g != f}
-                              for f in names}
+                tab = {f: {} for f in names}
+                for f in names:
+                    for g in names:
+                        if g == f:
+                            continue
+                        res = FF[k](X, pd.DataFrame({"rank": [1.0, 0.0]}, index=[g, f]), thresh_corr=10.0)
+                        col = f"{k}_filter"
+                        v = res.loc[f, col] if hasattr(res, "columns") and col in res.columns else 0.0
+                        v = fnum(v)
+                        tab[f][g] = 0.0 if v == "nan" else v
+                prs[k] = tab
             except Exception as e:  # noqa: BLE001
                 prs[k] = f"{type(e).__name__}"
         out["pairs"][dtype] = prs
@@ -1142,6 +1152,19 @@ def gen_case(rng, kind=None):
     if rng.random() < 0.03:
         n_best = rng.choice([0, nf + 2])
     return mk_case(task, y, quanti, quali, n_best, qm, lm, qf, lf, kw)
+
+
+def early_stop(t):
+    """O12 applies: the measure pipeline stopped before the last requested measure for a feature
+    that passed the nan / mode tests (`active = value < thresh` is False after a measure)"""
+    cells = pyref_cells(t)
+    n = t["n"]
+    for r in t["rows"]:
+        if Fr(r["cnt_nan"], n) < t["tnan"] and Fr(r["cnt_mode"], n) < t["tmode"]:
+            c = cells.get(r["name"]) or []
+            if any(x == "missing" for x in c) or any(x == "nan" for x in c[:-1]):
+                return True
+    return False
 
 
 def table_columns(t):
@@ -1662,7 +1685,7 @@ class C14(Prop):
             elif tag in ("sorted", "maximal", "count"):
                 if case["task"] == "regression" and d == "float" and [k for k in ms if k not in GATES] == ["distance"]:
                     sig = "regression_default_distance_measure_sign"
-                elif len([k for k in ms if k not in GATES]) >= 2 or ms == ["chi2"]:
+                elif ms == ["chi2"] or (len([k for k in ms if k not in GATES]) >= 2 and early_stop(tabs[d])):
                     sig = "second_measure_never_computed"
                 elif ms == ["rkruskal"] and any(isnan(v) for _, c in case["quali"] for v in decs(c)):
                     sig = "regression_qualitative_nan_group"
